@@ -1,6 +1,7 @@
 package props
 
 import (
+	"encoding/json"
 	"fmt"
 	"strings"
 
@@ -139,6 +140,35 @@ func c05Mutants(E fake.Entry, signer kit.Signer, other kit.Signer, salt int64, e
 	// two signers
 	two := kit.SignContent(drive.IDs.TX, content, salt, signer, other)
 	st("two signers", two.ExtIDs)
+	// forged batches: validly signed by ANOTHER key (the attacker, who holds funds of its own in the transfer
+	// scenarios), naming the owner's address as the input of one of several transactions
+	var ownerAddr factom.FAAddress
+	{
+		var parsed struct {
+			Transactions []struct {
+				Input struct {
+					Address factom.FAAddress `json:"address"`
+				} `json:"input"`
+			} `json:"transactions"`
+		}
+		if err := json.Unmarshal(content, &parsed); err == nil && len(parsed.Transactions) > 0 {
+			ownerAddr = parsed.Transactions[0].Input.Address
+		}
+	}
+	att := kit.Addr(KB)
+	forge := func(label string, signers []kit.Signer, txs ...kit.Tx) {
+		e := kit.SignContent(drive.IDs.TX, kit.BatchJSON(txs...), salt, signers...)
+		out = append(out, c05Mutant{label, "forged-multi-input", "tx", e})
+	}
+	steal := kit.Transfer(ownerAddr, "pUSD", 5e8, att)
+	stealConv := kit.Conversion(ownerAddr, "pUSD", 5e8, "pEUR")
+	forge("attacker signs [own 1-unit transfer, owner->attacker]", []kit.Signer{other}, kit.Transfer(att, "pUSD", 1, AddrC), steal)
+	forge("attacker signs [own 0-unit transfer, owner->attacker]", []kit.Signer{other}, kit.Transfer(att, "pUSD", 0, AddrC), steal)
+	forge("attacker signs [owner->attacker, own 1-unit transfer]", []kit.Signer{other}, steal, kit.Transfer(att, "pUSD", 1, AddrC))
+	forge("attacker signs twice [own transfer, owner->attacker]", []kit.Signer{other, other}, kit.Transfer(att, "pUSD", 1, AddrC), steal)
+	forge("attacker signs [own transfer, owner conversion]", []kit.Signer{other}, kit.Transfer(att, "pUSD", 1, AddrC), stealConv)
+	forge("attacker signs [own conversion, owner->attacker]", []kit.Signer{other}, kit.Conversion(att, "pUSD", 1, "pEUR"), steal)
+	forge("attacker signs [own self-transfer, owner->attacker, owner->attacker]", []kit.Signer{other}, kit.Transfer(att, "pUSD", 1, att), steal, kit.Transfer(ownerAddr, "pEUR", 1e8, att))
 	// signed for another chain, written to the transaction chain
 	f := kit.SignContent(drive.IDs.OPR, content, salt, signer)
 	st("signed for the OPR chain id", f.ExtIDs)
